@@ -92,23 +92,26 @@ def run(ctx):
         if infmt == "fasta" and name in ("fastq", "fq"):
             continue
         common = ["-a", "a0=GATTACAGA", "-m", "3"]
-        o1 = f"o1.{name}{outc}"
+        # the base name may contain further dots (sample.trimmed.fasta.gz, x.R1.fq): only the last extension (below the compression
+        # suffix) names the format
+        pre = rng.choice(["", "", "", "s.trimmed.", "x.R1.", "a.fa.", "b.fastq.", "v1.2."])
+        o1 = f"{pre}o1.{name}{outc}"
         out_args = ["-o", "{dir}/" + o1]
         if layout == "paired":
-            out_args += ["-p", f"{{dir}}/o2.{name}{outc}"]
+            out_args += ["-p", f"{{dir}}/{pre}o2.{name}{outc}"]
         # a second output stream (reads without adapter) in the same layout as the main one
         with_ut = rng.random() < 0.4
         bout_ut = []
         if with_ut:
-            out_args += ["--untrimmed-output", f"{{dir}}/u1.{name}{outc}"]
+            out_args += ["--untrimmed-output", f"{{dir}}/{pre}u1.{name}{outc}"]
             bout_ut = ["--untrimmed-output", "{dir}/baseu1." + name]
             if layout == "paired":
-                out_args += ["--untrimmed-paired-output", f"{{dir}}/u2.{name}{outc}"]
+                out_args += ["--untrimmed-paired-output", f"{{dir}}/{pre}u2.{name}{outc}"]
             if paired:
                 bout_ut += ["--untrimmed-paired-output", "{dir}/baseu2." + name]
         res, out = run_one(common + out_args + in_args, inputs, cores)
         ctx.evaluations += 1
-        cell = dict(input_container=inc, output_container=outc, name=name, layout=layout, cores=cores, input_format=infmt)
+        cell = dict(input_container=inc, output_container=outc, name=name, stem_prefix=pre, layout=layout, cores=cores, input_format=infmt)
         if res.status != 0 and layout == "interleaved" and infmt == "fasta" and cores > 1 and "has no partner" in res.stderr:
             ctx.failures.append(Failure("C19/interleaved-fasta-input-multicore", "interleaved FASTA input fails with more than one core", cell, res.stderr[-200:], 0))
             continue
@@ -126,7 +129,7 @@ def run(ctx):
         bres, bfiles = run_one(common + bout + bout_ut + bargs, binputs, 1)
         brecs1 = clirun.parse_fastx(bfiles["base1." + name])
         brecs2 = clirun.parse_fastx(bfiles["base2." + name]) if paired else None
-        missing = [fn_ for fn_ in [o1] + ([f"o2.{name}{outc}"] if layout == "paired" else []) + ([f"u1.{name}{outc}"] if with_ut else []) if fn_ not in out]
+        missing = [fn_ for fn_ in [o1] + ([f"{pre}o2.{name}{outc}"] if layout == "paired" else []) + ([f"{pre}u1.{name}{outc}"] if with_ut else []) if fn_ not in out]
         if missing:
             ctx.failures.append(Failure("C19/output-file-missing", "an output file that the command line names was not created (the plain single-core run "
                                         "creates every output file, also an empty one)", cell, sorted(out), missing))
@@ -147,11 +150,11 @@ def run(ctx):
         if strip(got1) != strip(exp) or (gotf == "fastq" and fmt_of(bfiles["base1." + name]) == "fastq" and got1 != exp):
             ctx.failures.append(Failure("C19/records-differ", "records differ from the plain single-core run", cell, got1[:3], exp[:3]))
         if layout == "paired":
-            got2 = clirun.parse_fastx(out[f"o2.{name}{outc}"])
+            got2 = clirun.parse_fastx(out[f"{pre}o2.{name}{outc}"])
             if strip(got2) != strip(brecs2):
                 ctx.failures.append(Failure("C19/records-differ", "R2 records differ from the plain single-core run", cell, got2[:3], brecs2[:3]))
         if with_ut:
-            gu1 = clirun.parse_fastx(out[f"u1.{name}{outc}"])
+            gu1 = clirun.parse_fastx(out[f"{pre}u1.{name}{outc}"])
             bu1 = clirun.parse_fastx(bfiles["baseu1." + name])
             if layout == "interleaved":
                 bu2 = clirun.parse_fastx(bfiles["baseu2." + name])
@@ -162,7 +165,7 @@ def run(ctx):
                 ctx.failures.append(Failure("C19/records-differ", "the untrimmed output differs from the plain two-file single-core run",
                                             dict(cell, untrimmed_output=True), gu1[:3], expu[:3]))
             if layout == "paired":
-                gu2 = clirun.parse_fastx(out[f"u2.{name}{outc}"])
+                gu2 = clirun.parse_fastx(out[f"{pre}u2.{name}{outc}"])
                 if strip(gu2) != strip(clirun.parse_fastx(bfiles["baseu2." + name])):
                     ctx.failures.append(Failure("C19/records-differ", "the untrimmed R2 output differs from the plain two-file single-core run",
                                                 dict(cell, untrimmed_output=True), gu2[:3], None))
